@@ -160,6 +160,17 @@ def check_io(ctx, case, tmp):
             f"{fmt}: {case['dtype']} stack {shape} saved as {stored.dtype}, read as {want_dtype}: "
             f"voxel {tuple(int(v) for v in idx)} is {b[idx]!r}, expected {want[idx]!r} "
             f"(max difference {diff.max():.6g}, {int((diff > tol).sum())} voxels differ)", case)
+    if fmt.startswith("tiff") and case["seed"] % 3 == 0:
+        # an image stack object (not an array) can be saved as well: same content again
+        f2 = os.path.join(tmp, "again.tif")
+        save_tiff(st, f2)
+        b2 = np.asarray(read_imgs(f2, **kw).get_full())
+        ctx.count("io_stack_object_resaved")
+        if b2.shape != b.shape or not np.allclose(b2.astype(np.float64), b.astype(np.float64),
+                                                  atol=tol if tol else 0, rtol=0):
+            return ctx.violation("values-changed", f"saving the stack object read from {fmt} and "
+                                                   f"reading it again changed shape or values "
+                                                   f"({b.shape} -> {b2.shape})", case)
     # indexing protocol of the stack object agrees with the full array
     i, j, k = (int(v) // 2 for v in shape4[:3])
     if not np.array_equal(np.asarray(st[i, j, k]), b[i, j, k]):
